@@ -11,7 +11,7 @@ Hypothesis H_str : forall s, P (OStr s).
 Hypothesis H_ustr : forall s, P (OUstr s).
 Hypothesis H_mbuff : forall s, P (OMbuff s).
 Hypothesis H_pair : forall k v, PO k -> PO v -> P (OPair k v).
-Hypothesis H_tok : forall a b c, PO a -> PO b -> PO c -> P (OTok a b c).
+Hypothesis H_tok : forall a b c ch, PO a -> PO b -> PO c -> P (OTok a b c ch).
 Hypothesis H_url : forall s cs, Forall PO cs -> P (OUrl s cs).
 Hypothesis H_re : forall s f d, P (ORegexp s f d).
 Hypothesis H_cont : forall i c a al items, Forall PO items -> P (OCont i c a al items).
@@ -26,7 +26,7 @@ Fixpoint obj_ind2 (o : obj) : P o :=
   | OUstr s => H_ustr s
   | OMbuff s => H_mbuff s
   | OPair k v => H_pair k v (po k) (po v)
-  | OTok a b c => H_tok a b c (po a) (po b) (po c)
+  | OTok a b c ch => H_tok a b c ch (po a) (po b) (po c)
   | OUrl s cs => H_url s cs ((fix go (l : list (option obj)) : Forall PO l :=
                                 match l return Forall PO l with
                                 | [] => Forall_nil PO
@@ -60,7 +60,7 @@ Lemma footprint_url s cs : footprint (OUrl s cs) = 1 + optb s + fp_list cs.
 Proof. reflexivity. Qed.
 Lemma footprint_pair k v : footprint (OPair k v) = 1 + fp_opt k + fp_opt v.
 Proof. reflexivity. Qed.
-Lemma footprint_tok a b c : footprint (OTok a b c) = 1 + fp_opt a + fp_opt b + fp_opt c.
+Lemma footprint_tok a b c ch : footprint (OTok a b c ch) = 1 + fp_opt a + fp_opt b + fp_opt c.
 Proof. reflexivity. Qed.
 
 Lemma release_cont i c a al items :
@@ -70,7 +70,7 @@ Lemma release_url s cs : release (OUrl s cs) = rel_list cs + optb s + 1.
 Proof. reflexivity. Qed.
 Lemma release_pair k v : release (OPair k v) = rel_opt k + rel_opt v + 1.
 Proof. reflexivity. Qed.
-Lemma release_tok a b c : release (OTok a b c) = rel_opt c + rel_opt a + rel_opt b + 1.
+Lemma release_tok a b c ch : release (OTok a b c ch) = rel_opt c + rel_opt a + rel_opt b + 1.
 Proof. reflexivity. Qed.
 
 Lemma abs_cont i c a al items : abs (OCont i c a al items) = OCont i c 0 false (map abs_opt items).
@@ -79,7 +79,7 @@ Lemma abs_url s cs : abs (OUrl s cs) = OUrl s (map abs_opt cs).
 Proof. reflexivity. Qed.
 Lemma abs_pair k v : abs (OPair k v) = OPair (abs_opt k) (abs_opt v).
 Proof. reflexivity. Qed.
-Lemma abs_tok a b c : abs (OTok a b c) = OTok (abs_opt a) (abs_opt b) (abs_opt c).
+Lemma abs_tok a b c ch : abs (OTok a b c ch) = OTok (abs_opt a) (abs_opt b) (abs_opt c) ch.
 Proof. reflexivity. Qed.
 
 Section WithPcre.
@@ -92,7 +92,7 @@ Lemma dup_cost_url s cs : dup_cost pcre (OUrl s cs) = 1 + optb s + dc_list pcre 
 Proof. reflexivity. Qed.
 Lemma dup_cost_pair k v : dup_cost pcre (OPair k v) = 1 + dc_opt pcre k + dc_opt pcre v.
 Proof. reflexivity. Qed.
-Lemma dup_cost_tok a b c : dup_cost pcre (OTok a b c) = 1 + dc_opt pcre a + dc_opt pcre c + dc_opt pcre b.
+Lemma dup_cost_tok a b c ch : dup_cost pcre (OTok a b c ch) = 1 + dc_opt pcre a + dc_opt pcre c + dc_opt pcre b.
 Proof. reflexivity. Qed.
 
 (* the per-item guard of the array vector / map dup routines *)
@@ -117,9 +117,9 @@ Proof. reflexivity. Qed.
 Lemma copy_pair k v :
   copy pcre (OPair k v) = (k' <- copy_opt pcre k ;; v' <- copy_opt pcre v ;; Ok (OPair k' v')).
 Proof. reflexivity. Qed.
-Lemma copy_tok a b c :
-  copy pcre (OTok a b c) =
-  (a' <- copy_opt pcre a ;; c' <- copy_opt pcre c ;; b' <- copy_opt pcre b ;; Ok (OTok a' b' c')).
+Lemma copy_tok a b c ch :
+  copy pcre (OTok a b c ch) =
+  (a' <- copy_opt pcre a ;; c' <- copy_opt pcre c ;; b' <- copy_opt pcre b ;; Ok (OTok a' b' c' ch)).
 Proof. reflexivity. Qed.
 End WithPcre.
 
@@ -134,10 +134,10 @@ Lemma relabel_pair k v n :
   relabel (OPair k v) n =
   (let (k', n1) := relabel_opt k n in let (v', n2) := relabel_opt v n1 in (OPair k' v', n2)).
 Proof. reflexivity. Qed.
-Lemma relabel_tok a b c n :
-  relabel (OTok a b c) n =
+Lemma relabel_tok a b c ch n :
+  relabel (OTok a b c ch) n =
   (let (a', n1) := relabel_opt a n in let (c', n2) := relabel_opt c n1 in
-   let (b', n3) := relabel_opt b n2 in (OTok a' b' c', n3)).
+   let (b', n3) := relabel_opt b n2 in (OTok a' b' c' ch, n3)).
 Proof. reflexivity. Qed.
 
 Lemma wf_cont i c a al items :
